@@ -1327,9 +1327,11 @@ class CodeGenerator(NodeVisitor):
         self.enter_frame(loop_frame)
 
         self.writeline("_loop_vars = {}")
-        self.blockvisit(node.body, loop_frame)
+        # clear the indicator before the body so that a continue or break
+        # in the body does not make the else branch run
         if node.else_:
             self.writeline(f"{iteration_indicator} = 0")
+        self.blockvisit(node.body, loop_frame)
         self.outdent()
 
         if filter_agen is not None:
